@@ -70,4 +70,6 @@ def panel (f : Feat) : Panel :=
     prog := prog f,
     ctrl := .ssd (Ssd.por true 120 680) }
 
+attribute [driver_simp] W bufferLen setLut init updateFrame displayFrame clearFrame prog
+
 end EpdVerif.Drivers.Epd3in7
